@@ -52,6 +52,13 @@ def load():
     proxy = layouts.CStructProxy(m.c_vhdx)
     m.c_vhdx = proxy
     m.UUID = _uuid_stub
+    if hasattr(m, "io"):
+        # a version of the module that buffers through io.BytesIO gets the same stand-in as the envelope harness
+        import types
+
+        from harness.gates import _Buf
+
+        m.io = types.SimpleNamespace(BytesIO=_Buf, SEEK_END=2, SEEK_SET=0, SEEK_CUR=1)
     # objects captured at class-creation time
     m.MetadataTable.METADATA_MAP = loader.SymDict({k: (proxy.wrap(v) if not isinstance(v, type) or v.__module__ != m.__name__ else v)
                                                    for k, v in m.MetadataTable.METADATA_MAP.items()})
@@ -138,9 +145,11 @@ def container_task(prop, cfg, tier, seed):
             return dict(entry="vhdx_container", params={}, files=fd, call=["open"])
 
         ctx.scenario = Scenario(vars_, build, lambda mo, d: dict(returns=True))
-        # replay images only: every item's data lives in its own slot, so no two symbolic views overlap partially
+        # replay images only: the items' data areas are 8-aligned and pairwise at least 256 bytes apart (in any order)
         for k, it in enumerate(items):
-            ctx.scenario.extra += [it["off"] >= 0x10000 + 0x2000 * k, it["off"] <= 0x11000 + 0x2000 * k, it["off"] % 8 == 0]
+            ctx.scenario.extra += [it["off"] % 8 == 0, it["off"] <= 0x1ff00]
+            for it2 in items[:k]:
+                ctx.scenario.extra.append(core.sym_or(it["off"] >= it2["off"] + 0x100, it2["off"] >= it["off"] + 0x100))
         if cfg.get("parent"):
             opened = []
 
@@ -180,10 +189,13 @@ def container_task(prop, cfg, tier, seed):
                 addr = core.ite(hit, meta_off + it["off"], addr if addr is not None else 0)
             return addr
 
-        extra_bad.append(obj.size != w(item_value_addr(G["VIRTUAL_DISK_SIZE_GUID"]), 8))
-        extra_bad.append(obj.block_size != w(item_value_addr(G["FILE_PARAMETERS_GUID"]), 4))
-        extra_bad.append(obj.sector_size != w(item_value_addr(G["LOGICAL_SECTOR_SIZE_GUID"]), 4))
+        stored = dict(size=w(item_value_addr(G["VIRTUAL_DISK_SIZE_GUID"]), 8),
+                      block_size=w(item_value_addr(G["FILE_PARAMETERS_GUID"]), 4),
+                      sector_size=w(item_value_addr(G["LOGICAL_SECTOR_SIZE_GUID"]), 4))
         hp = (w(item_value_addr(G["FILE_PARAMETERS_GUID"]) + 4, 4) >> 1) % 2
+        extra_bad.append(obj.size != stored["size"])
+        extra_bad.append(obj.block_size != stored["block_size"])
+        extra_bad.append(obj.sector_size != stored["sector_size"])
         extra_bad.append(obj.has_parent != hp)
         if cfg.get("parent") and bool(obj.has_parent != 0):
             # a differencing disk resolved its parent through open_parent and the locator type is the VHDX one
@@ -195,11 +207,33 @@ def container_task(prop, cfg, tier, seed):
             if mm is not None:
                 break
         if mm is not None:
-            desc = ctx._describe(mm, "exposed VHDX metadata differs from the stored values")
-            path = ctx._save(desc, "cex")
-            ctx.res["violations"].append(dict(what="exposed VHDX metadata differs from the stored values", replay=path,
-                                              detail="(symbolic; no concrete replay for attribute comparisons)",
-                                              vars=desc.get("vars")))
+            # replay: a realisable image of this path on which the comparison fails; the real constructor must expose the
+            # stored values (it does not: the violation reproduces) - a parent image cannot be replayed (no parent file)
+            from symx import replay as _rp
+
+            what = "exposed VHDX metadata differs from the stored values"
+            try:
+                mr = ctx._solve_realisable([b])
+                desc = ctx._describe(mr, what) if mr is not None else None
+            except (core.Inconclusive, _rp.Unrealisable) as ex:
+                mr, desc = None, None
+                ctx.res["notes"].append(f"{what}: {ex}")
+            if desc is None or cfg.get("parent"):
+                ctx.res["inconclusive"].append(f"{what}: the solver has a counterexample but no replayable image was built")
+            else:
+                desc["expect"] = dict(attrs=dict(size=mi(mr, stored["size"]), block_size=mi(mr, stored["block_size"]),
+                                                 sector_size=mi(mr, stored["sector_size"]), has_parent=mi(mr, hp),
+                                                 active_header=0 if mi(mr, seq1) > mi(mr, seq2) else 1))
+                verdict, detail = _rp.run_replay(desc)
+                if verdict == "violation":
+                    path = ctx._save(desc, "cex")
+                    ctx.res["violations"].append(dict(what=what, replay=path, detail=detail, vars=desc.get("vars")))
+                    if len(ctx.res["violations"]) >= ctx.max_violations:
+                        ctx.E.stop = True
+                elif verdict == "ok":
+                    ctx.res["errors"].append(f"{what}: solver counterexample does not reproduce on the real code: {detail}")
+                else:
+                    ctx.res["errors"].append(f"{what}: replay failed: {detail}")
         else:
             ctx.res["discharged"] += 1
         _finish(ctx, accept, "VHDX() accepted a container outside the supported set")
